@@ -158,3 +158,18 @@ def verify_hyperparameters(num_buckets=None,
         raise ValueError(
             "Monotonicities should be pairs of be indices in range "
             "[0, num_buckets). They are: {}".format(monotonicities))
+    # Circular constraints cannot be handled by the projection: reject them
+    # here rather than when the constraint is first applied.
+    successors = {}
+    for (i, j) in monotonicities:
+      successors.setdefault(i, set()).add(j)
+    for start in successors:
+      reachable, frontier = set(), set(successors[start])
+      while frontier:
+        node = frontier.pop()
+        if node not in reachable:
+          reachable.add(node)
+          frontier.update(successors.get(node, ()))
+      if start in reachable:
+        raise ValueError(
+            "Circular monotonicity constraints: {}".format(monotonicities))
